@@ -145,6 +145,19 @@ def oracle_c12(script, ig, mg):
             # fields are private): the implementation refused to decode a valid encoding
             fails.append(("valid-state-encoding-does-not-decode", {"group": i, "cmd": script[i][:120]}))
             break
+        if i < len(script) and script[i].startswith("encf "):
+            room = int(script[i].split()[1])
+            rec = script[i].split(" ", 2)[2]
+            base = next((ig[j].line for j in range(i - 1, max(-1, i - 4), -1)
+                         if j < len(script) and script[j] == "enc " + rec), None)
+            if base is not None and base.startswith("enc ") and len(base.split()) == 2:
+                ln = len(base.split()[1]) // 2
+                want = base if ln <= room else "enc err"
+                if a.line != want:
+                    fails.append(("encoder-reports-success-without-delivering-the-bytes" if ln > room else
+                                  "encoding-depends-on-how-the-writer-accepts-bytes",
+                                  {"group": i, "cmd": script[i][:100], "record_len": ln, "room": room, "impl": a.line[:80]}))
+                    break
         if i < len(script) and script[i].startswith("encw ") and a.line.startswith("enc "):
             # compare with the plain `enc` of the same record (two lines above: enc, rt, encw)
             base = next((ig[j].line for j in range(i - 1, max(-1, i - 3), -1)
@@ -657,6 +670,18 @@ def scripts_c06(tier, rng):
         out.append((f"c06_{i}", lines))
         for k, v in g.stats.items():
             stats[k] = stats.get(k, 0) + v
+    # a restart with lower chunk limits than the ones the newest chunk was written with (it is already
+    # "full" for the new run), then a rejected write as the very first call
+    q2 = ["st", f"read 0 {U64MAX}", "stat", "res", "size", "dir"]
+    k = 0
+    for newcfg in ("cfg mr=2", "cfg mr=4", "cfg ms=64", "cfg ms=100 mr=3"):
+        for rej in ("vote 0 0", "app 1,9,aa", "app 0,5,aa", "commit 0 0", "trunc 9", "app 1,5,aa 0,6,bb"):
+            lines = ["cfg", "open", "vote 1 1", "app 1,0,aa 1,1,bb 1,2,cc 1,3,dd 1,4,ee", "commit 1 2", "flush 1", "widle",
+                     "drop", newcfg, "open"] + q2 + [rej] + q2 + ["app 1,5,ff", "flush 2", "widle"] + q2 + \
+                    ["drop", "open"] + q2
+            out.append((f"c06r_{k}", lines))
+            k += 1
+    stats["restart-lower-limits-then-rejected"] = k
     if tier == "thorough":
         q = ["st", f"read 0 {U64MAX}", "stat", "res"]
         e = gen.enum_histories(3, False, q, ["cfg", "cfg mr=2"])
@@ -692,6 +717,19 @@ def scripts_c16(tier, rng):
                                f"purge 0 {arg}", f"app 1,{arg},bb"):
                         out.append((f"c16s_{k}", pre + [op, "st", f"read 0 {U64MAX}"]))
                         k += 1
+                    # a purge with a newer term at an index inside (or at the edge of) the live range, then
+                    # the only append the store accepts afterwards (it may land on an occupied index)
+                    out.append((f"c16s_{k}", pre + [f"purge 2 {arg}", "st", f"app 2,{arg + 1},bb", f"app 2,{arg + 2},cc",
+                                                    "st", f"read 0 {U64MAX}", "flush 3", "widle", "drop", "open", "st",
+                                                    f"read 0 {U64MAX}"]))
+                    k += 1
+    # index u64::MAX anywhere in a batch
+    M = U64MAX
+    for batch in (f"app 1,{M},aa 2,0,bb", f"app 1,{M - 1},aa 1,{M},bb 2,0,cc", f"app 1,{M},aa 1,{M},bb",
+                  f"app 1,{M - 1},aa 1,{M},bb", f"app 1,0,aa 1,{M},bb 1,1,cc"):
+        for pre in (["cfg", "open"], ["cfg", "open", f"app 1,{M - 2},zz"], ["cfg mr=2", "open", "app 1,0,aa"]):
+            out.append((f"c16s_{k}", pre + [batch, "st", f"read 0 {M}", f"purge 1 {M}", f"commit 1 {M}", f"trunc {M}", "st"]))
+            k += 1
     stats["small-scope-purge-point"] = k
     # any state: histories with small caches, chunk rotations, truncations and
     # re-appends, explicit flush-worker steps (a panic on the worker thread
@@ -723,6 +761,29 @@ def scripts_c15(tier, rng):
         out.append((f"c15_{i}", lines))
         for k, v in g.stats.items():
             stats[k] = stats.get(k, 0) + v
+    # recovery of a torn tail (the cut chunk stays closed, a fresh chunk is opened), small cache on the
+    # reopening run: the boundary must move on with the first sync, entries of synced chunks are evictable
+    import crashprops
+    pres = []
+    for j in range(6 if tier == "quick" else 40):
+        mr = 3 + rng.below(4)
+        n = mr + 1 + rng.below(mr)
+        pres.append((f"c15rec_{j}", [f"cfg mr={mr}", "open",
+                                     "app " + " ".join(f"1,{x},{gen.rnd_bytes_token(rng, [7, 8])}" for x in range(n)),
+                                     "flush 1", "widle", "drop"], mr, n))
+    lays = crashprops.layouts([(nm, pre) for nm, pre, _, _ in pres])
+    for nm, pre, mr, n in pres:
+        lay = lays.get(nm, [])
+        if not lay or len(lay[-1][3]) < 3:
+            continue  # the newest chunk holds no entry record to tear
+        nid, ln, du, bnd = lay[-1]
+        cut = 1 + rng.below(12)
+        cfg2 = f"cfg mr={mr} ci={rng.choice([0, 1, 2])}" + rng.choice(["", " cc=0", " cc=16"])
+        lines = pre + [cfg2, f"fsop cut {nid} {ln - cut}", "fsop settle", "open", "stat", "res", "flush 5", "widle", "stat", "res",
+                       f"app 1,{n - 1},aa", "stat", "res", f"app 1,{n},bb", "stat", "res", "flush 6", "widle", "drain",
+                       "stat", "res"]
+        out.append((nm, lines))
+    stats["recovery-with-small-cache"] = 6 if tier == "quick" else 40
     return out, stats
 
 
@@ -1553,7 +1614,7 @@ def scripts_c14(tier, rng):
             # writes after the acknowledged flush that are never flushed (they may rotate the chunk, which
             # queues the old tail for the worker): dropped with the store, the reopen shows a prefix
             for _ in range(1 + r.below(4)):
-                w = r.choice([g.op_append, g.op_append, g.op_vote, g.op_commit])()
+                w = r.choice([g.op_append, g.op_append, g.op_vote, g.op_commit, g.op_purge, g.op_purge])()
                 if w:
                     lines.append(w)
         lines += ["st", f"read 0 {U64MAX}", "dir",
@@ -1684,6 +1745,12 @@ def oracle_c13(script, ig, mg):
             elif g.line == "open err locked":
                 fails.append(("refused-although-nobody-owns-the-directory", {"group": i}))
                 return fails
+        elif c == "openalt":
+            # the same directory under another spelling (`<dir>/.`)
+            if owner is not None and (g.line != "open err locked" or g.evs):
+                fails.append(("second-owner-admitted-or-refusal-touched-files",
+                              {"group": i, "line": g.line, "events": g.evs, "owner": owner, "via": "another spelling of the path"}))
+                return fails
         elif c == "dumpopen":
             if owner is not None:
                 if g.line != "dumpopen err locked" or g.evs:
@@ -1719,7 +1786,7 @@ def scripts_c13(tier, rng):
         lines = g.script() + ["flush 9000", "widle"]
         r = rng.fork()
         for _ in range(6 + r.below(8)):
-            lines.append(r.choice(["open", "dumpopen", "drop", "dumpdrop", "open", "dumpopen"]))
+            lines.append(r.choice(["open", "dumpopen", "drop", "dumpdrop", "open", "dumpopen", "openalt"]))
         lines += ["drop", "dumpdrop"]
         t, p, it = r.choice([(2, 0, 30), (4, 2, 20), (8, 1, 15), (3, 3, 12)])
         lines += [f"lockrace {t} {p} {it}", "open", f"read 0 {U64MAX}", "dumpopen", "drop", "dumpopen", "open",
